@@ -381,8 +381,11 @@ def run_random(case):
                     contended[0] += 1
                 try:
                     rsp = await host.send_command(cmd)
-                except Exception as e:  # an error result is a result
+                except Exception as e:
+                    # send_command() without check_result returns the reply whatever its status: an exception means that this
+                    # caller did not receive the reply to its command
                     results.append((ci, k, op, type(e).__name__))
+                    sim.violation_once('callerexc', f'caller-got-exception-instead-of-reply:{type(e).__name__}', f'{mon.name(op)}: {e!r}'[:200])
                     continue
                 results.append((ci, k, op, rsp.command_opcode))
                 if rsp.command_opcode != op:
